@@ -268,3 +268,77 @@ func c01FloatStrings(e *env) {
 		}
 	}
 }
+
+// ---------- floats: the IEEE 754 operations of the model against the hardware arithmetic of Go ----------
+
+func c01FloatArith(e *env) {
+	r := e.rng
+	pick := func() float64 {
+		switch r.Intn(7) {
+		case 0:
+			return xPickFloat(r)
+		case 1:
+			return float64(int64(r.Intn(1<<20))-(1<<19)) / float64(int64(1)<<uint(r.Intn(30)))
+		case 2: // 53-bit mantissas
+			f := math.Ldexp(float64(r.U64()&((1<<53)-1)), r.Intn(120)-80)
+			if r.Bool() {
+				f = -f
+			}
+			return f
+		case 3:
+			return float64(int64(r.Intn(2000)) - 1000)
+		case 4: // any mantissa, moderate exponent
+			return math.Float64frombits(r.U64()&^(uint64(0x7ff)<<52) | uint64(1023+r.Intn(160)-80)<<52)
+		case 5: // neighbours of powers of two: the carry of the rounding
+			p := math.Ldexp(1, r.Intn(80)-40)
+			if r.Bool() {
+				return math.Nextafter(p, 0)
+			}
+			return math.Nextafter(p, math.Inf(1))
+		}
+		return float64(int64(r.U64() >> uint(1+r.Intn(62))))
+	}
+	type job struct {
+		op   string
+		a, b float64
+	}
+	var jobs []job
+	var reqs []string
+	n := 1200 * e.scale
+	for i := 0; i < n; i++ {
+		a, b := pick(), pick()
+		for _, op := range []string{"add", "sub", "mul", "div"} {
+			jobs = append(jobs, job{op, a, b})
+			reqs = append(reqs, "fl_arith "+op+" "+flSexp(a)+" ; "+flSexp(b))
+		}
+	}
+	resp := e.m.Batch(reqs)
+	for i, j := range jobs {
+		var want float64
+		switch j.op {
+		case "add":
+			want = j.a + j.b
+		case "sub":
+			want = j.a - j.b
+		case "mul":
+			want = j.a * j.b
+		case "div":
+			want = j.a / j.b
+		}
+		e.res.Count(fmt.Sprintf("float-arith|%s|%x|%x", j.op, math.Float64bits(j.a), math.Float64bits(j.b)), true, "group:float-arith")
+		got := strings.Join(resp[i], " ")
+		if got == "none" {
+			// NaN / infinite operand or result, or beyond the exponent range of the model
+			e.res.Histogram["float-arith:outside-the-model"]++
+			if a := math.Abs(want); !math.IsNaN(want) && !math.IsInf(want, 0) && a > 1e-250 && a < 1e250 && j.op != "div" {
+				c01Fail(e, hx.Violation{Kind: "mismatch", What: "IEEE arithmetic of the model gives up inside its domain", Case: fmt.Sprintf("%s %b %b", j.op, j.a, j.b)}, "")
+			}
+			continue
+		}
+		if got != flSexp(want) {
+			c01Fail(e, hx.Violation{Kind: "mismatch", What: "IEEE arithmetic of the model (Num.fl_" + j.op + "_r) and Go's float64 arithmetic disagree",
+				Case: fmt.Sprintf("%s %b %b", j.op, j.a, j.b), Expected: flSexp(want), Observed: got}, "")
+		}
+		e.res.Histogram["float-arith:checked:"+j.op]++
+	}
+}
